@@ -684,19 +684,25 @@ sec_poly(size_t everylen, size_t maxlen, long nrand, int sec)
  * message.
  */
 static void
-poly_edge_case(vf_rng *rg, uint64_t idx, int rmode, int smode, int tmode, int delta)
+poly_edge_case(vf_rng *rg, uint64_t idx, int rmode, int smode, int tmode, int delta, int real)
 {
 	unsigned char key[32], iv[12], aad[16 * 8], pt[48], ct[48], tag[16], rb[16];
 	size_t nblk, al, dl, fl, u;
 	unsigned char *fr;
 	BIGNUM *r = BN_new(), *acc = BN_new(), *n = BN_new(), *T = BN_new(), *t2 = BN_new(), *m = BN_new();
 	int tries, ok = 0;
-	char x[160];
+	char x[700];
 	chunks ch;
 
 	vf_bytes(rg, key, 32); vf_bytes(rg, iv, 12);
 	vf_bytes(rg, fake_block0, 64);
 	fake_seed = vf_u64(rg);
+	if (real) {
+		/* genuine ChaCha20: r and s are whatever block 0 gives (rmode/smode ignored) */
+		memset(fake_block0, 0, 64);
+		ref_chacha(key, iv, 0, fake_block0, fake_block0, 64);
+		rmode = 3; smode = 2;
+	}
 	/* r */
 	if (rmode == 0) { memset(fake_block0, 0, 16); fake_block0[0] = 1; }                 /* r = 1 */
 	else if (rmode == 1) { memset(fake_block0, 0xFF, 16); }                             /* largest clamped r */
@@ -731,7 +737,7 @@ poly_edge_case(vf_rng *rg, uint64_t idx, int rmode, int smode, int tmode, int de
 		nblk = vf_range(rg, 1, 8); al = 16 * nblk; dl = vf_below(rg, 3) == 0 ? vf_range(rg, 1, 48) : 0;
 		vf_bytes(rg, pt, dl);
 		memcpy(ct, pt, dl);
-		fake_chacha(key, iv, 1, ct, dl);
+		if (real) ref_chacha(key, iv, 1, ct, ct, dl); else fake_chacha(key, iv, 1, ct, dl);
 		if (!BN_is_zero(r)) for (tries = 0; tries < 64 && !ok; tries ++) {
 			BIGNUM *ri = BN_new(), *h = BN_new();
 			unsigned char blk[17];
@@ -767,18 +773,31 @@ poly_edge_case(vf_rng *rg, uint64_t idx, int rmode, int smode, int tmode, int de
 		}
 	}
 	if (ok) {
-		if (tmode != 1) { vf_bytes(rg, pt, dl); memcpy(ct, pt, dl); fake_chacha(key, iv, 1, ct, dl); }
+		if (tmode != 1) { vf_bytes(rg, pt, dl); memcpy(ct, pt, dl); if (real) ref_chacha(key, iv, 1, ct, ct, dl); else fake_chacha(key, iv, 1, ct, dl); }
 		fr = aead_frame(aad, al, ct, dl, &fl);
 		ref_poly1305(fake_block0, fr, fl, tag);
 		free(fr);
+		if (real) {
+			/* the two references must agree (EVP AEAD vs BIGNUM Poly1305 over the framed message) */
+			unsigned char ct2[48], tag2[16];
+			ref_aead(key, iv, aad, al, pt, ct2, dl, tag2);
+			if (memcmp(tag2, tag, 16) != 0 || (dl && memcmp(ct2, ct, dl) != 0)) die("ref-crafted-disagree");
+		}
 		ch = ch_one(dl);
 		snprintf(x, sizeof x, "rmode=%d smode=%d tmode=%d delta=%d polykey=%s aad=%s", rmode, smode, tmode, delta,
 			vf_hexs(fake_block0, 32), vf_hexs(aad, al > 32 ? 32 : al));
-		set_desc("poly-edge(stand-in stream cipher supplies the Poly1305 key)", idx, key, 32, iv, 12, dl, &ch, 0, x);
-		poly_run_all("poly1305-edge", key, iv, aad, al, pt, ct, dl, tag, 1, 0);
+		if (real) {
+			snprintf(x, sizeof x, "tmode=%d final_acc_mod_p=%d aadlen=%zu aad=%s pt=%s", tmode, delta, al, vf_hexs(aad, al), vf_hexs(pt, dl));
+			set_desc("poly-crafted(real ChaCha20; last AAD block solved for the final accumulator)", idx, key, 32, iv, 12, dl, &ch, 0, x);
+			poly_run_all("poly1305-crafted", key, iv, aad, al, pt, ct, dl, tag, 0, 0);
+			vf_stat("cases_poly1305_crafted", 1);
+		} else {
+			set_desc("poly-edge(stand-in stream cipher supplies the Poly1305 key)", idx, key, 32, iv, 12, dl, &ch, 0, x);
+			poly_run_all("poly1305-edge", key, iv, aad, al, pt, ct, dl, tag, 1, 0);
+			vf_stat("cases_poly1305_edge", 1);
+		}
 		vf_stat("cases", 1);
-		vf_stat("cases_poly1305_edge", 1);
-		vf_distinct("poly_edge", "r%d/s%d/t%d/d%d", rmode, smode, tmode, delta);
+		vf_distinct("poly_edge", "r%d/s%d/t%d/d%d/%s", rmode, smode, tmode, delta, real ? "real" : "standin");
 	} else {
 		vf_stat("poly_edge_unsolved", 1);
 	}
@@ -799,7 +818,15 @@ sec_poly_edge(int sec, int reps_inner)
 		if (tmode == 2 && delta > -8) continue;      /* tmode 2 ignores delta: a few repetitions only */
 		if (!take()) continue;
 		case_rng(&r, sec, idx);
-		poly_edge_case(&r, idx, rmode, smode, tmode, delta);
+		poly_edge_case(&r, idx, rmode, smode, tmode, delta, 0);
+	}
+	/* the same accumulator targets through the genuine ChaCha20 (nothing outside the documented interface) */
+	for (q = 0; q < reps_inner * 6; q ++) for (delta = -12; delta <= 12; delta ++) {
+		vf_rng r;
+		uint64_t idx = 5000000 + (uint64_t)q * 100 + (uint64_t)(delta + 12);
+		if (!take()) continue;
+		case_rng(&r, sec, idx);
+		poly_edge_case(&r, idx, 3, 2, 1, delta, 1);
 	}
 }
 
